@@ -351,9 +351,11 @@ class C03Case:
         may = (self.pending_may & clo_may) | self.always_closure(clo_may)
         must |= self.always & clo_must
         ran = self.note_ran(r)
-        # whatever was asked for is now up to date
+        # whatever was really needed for the goal is now up to date; steps
+        # that are only *declared* relatives of the goal (another variant of
+        # a dual library...) may not have been built and stay pending
         self.pending_must -= clo_must
-        self.pending_may -= clo_may
+        self.pending_may -= clo_must
         missing = must - ran
         spurious = ran - may
         if missing:
@@ -872,4 +874,8 @@ def minimise(rep, v, root, deadline):
             return replay(r, root)
         except HarnessError:
             return []
-    return minimise_replay(rep, v, run, deadline, max_runs=40)
+    # the set-up operations establish the graph every later expectation is
+    # derived from: they are never dropped
+    return minimise_replay(rep, v, run, deadline, max_runs=40,
+                           keep=lambda op: op[0] in ('configure', 'all',
+                                                     'complete'))
